@@ -486,6 +486,7 @@ func (m *Machine) randRead(b SliceV, full bool) Val {
 			t := m.freshTapeByte()
 			m.storeCell(b.A.E[b.Off+i], t, "rand.Read")
 		}
+		m.readLens = append(m.readLens, k)
 		return TupleV{bv64(k), m.makeError("injected random source failure")}
 	}
 	if !full && m.shortReads && n > 1 {
@@ -497,8 +498,10 @@ func (m *Machine) randRead(b SliceV, full bool) Val {
 		if k < n {
 			m.res.Notes["short-read"] = "taken"
 		}
+		m.readLens = append(m.readLens, k)
 		return TupleV{bv64(k), Iface{}}
 	}
+	m.readLens = append(m.readLens, n)
 	for i := 0; i < n; i++ {
 		m.storeCell(b.A.E[b.Off+i], m.freshTapeByte(), "rand.Read")
 	}
@@ -523,6 +526,7 @@ func (m *Machine) drawSummary(n *Term) Val {
 		m.tape = append(m.tape, Extract(d, 8*i+7, 8*i))
 	}
 	m.reads++
+	m.readLens = append(m.readLens, 4)
 	m.assume(Cmp("bvult", d, n))
 	return d
 }
